@@ -243,8 +243,11 @@ vector<string> ParameterList::getMatchingParameterNames(const string& pattern) c
       }
       pos1 = pos2 + g.length();
     }
+    // the suffix test is only valid after a '*': a pattern without '*' must match the whole name
     if (flag &&
-        ((g.length() == 0) || (pos1 == name.length()) || (name.rfind(g) == name.length() - g.length())))
+        (pattern.find('*') != string::npos ?
+        ((g.length() == 0) || (pos1 == name.length()) || (name.rfind(g) == name.length() - g.length())) :
+        (pos1 == name.length())))
       pNames.push_back(name);
   }
 
